@@ -15,8 +15,80 @@ SCHEMES = {'http': 'http:', 'https': 'https:'}
 PAYLOAD = {'rule': 'current_rule', 'target': None, 'credentials': 'creds'}
 
 
+def _fullmatch_of_body(t, e):
+    """(pattern text, subject) when e is `<compiled P>.fullmatch(S) is not
+    None` / `re.fullmatch(P, S) is not None` / bool(...) of either, with P a
+    constant; else None"""
+    x = e
+    if isinstance(x, ast.Call) and U(x.func) == 'bool' and len(x.args) == 1:
+        x = x.args[0]
+    elif isinstance(x, ast.Compare) and len(x.ops) == 1 and isinstance(
+            x.ops[0], ast.IsNot) and is_const(x.comparators[0], None):
+        x = x.left
+    else:
+        return None
+    if not (isinstance(x, ast.Call) and isinstance(x.func, ast.Attribute)
+            and x.func.attr == 'fullmatch' and not x.keywords):
+        return None
+    recv = x.func.value
+    if U(recv) == 're' and len(x.args) == 2 and is_const(x.args[0]) and \
+            isinstance(x.args[0].value, str):
+        return x.args[0].value, x.args[1]
+    mod = t.module_of(None)
+    comp = recv
+    if isinstance(recv, (ast.Name, ast.Attribute)):
+        try:
+            d = t.prog.resolve(mod, recv)
+        except Exception:
+            d = None
+        if d and '.' in d:
+            m = t.prog.modules.get(d.rsplit('.', 1)[0])
+            comp = m.assigns.get(d.rsplit('.', 1)[1]) if m else None
+    if isinstance(comp, ast.Call) and U(comp.func) in (
+            're.compile', 'compile') and len(comp.args) == 1 and \
+            not comp.keywords and is_const(comp.args[0]) and isinstance(
+                comp.args[0].value, str) and len(x.args) == 1:
+        return comp.args[0].value, x.args[0]
+    return None
+
+
+def _quoted_true_pattern(pat):
+    """the regular expression is exactly `"*True"*`"""
+    import re._parser as sp
+    import re._constants as sc
+    try:
+        items = list(sp.parse(pat))
+    except Exception:
+        return False
+
+    def quotes(it):
+        op, av = it
+        if op not in (sc.MAX_REPEAT, sc.MIN_REPEAT):
+            return False
+        lo, hi, sub = av
+        sub = list(sub)
+        return lo == 0 and hi == sc.MAXREPEAT and len(sub) == 1 and \
+            sub[0] == (sc.LITERAL, ord('"'))
+    return len(items) == 6 and quotes(items[0]) and quotes(items[5]) and \
+        [it for it in items[1:5]] == [(sc.LITERAL, ord(c)) for c in 'True']
+
+
 def decision_shape(t, e):
     """(ok, detail, canonical text) for a returned decision expression."""
+    e = t.expand(e)
+    fm = _fullmatch_of_body(t, e)
+    if fm is not None:
+        pat, subj = fm
+        if not (isinstance(subj, ast.Attribute) and subj.attr == 'text'):
+            return False, 'what is matched is not the reply body (.text)', \
+                U(e)
+        if _quoted_true_pattern(pat):
+            return True, 'reply body fully matches `"*True"*`: any number ' \
+                "of double quotes around exactly 'True'", 'quoted'
+        raise AnalysisError(
+            'the reply is decided by the regular expression %r: whether '
+            'that accepts exactly the bodies `"*True"*` is not decided '
+            'here' % pat)
     e = t.expand(e)
     if not (isinstance(e, ast.Compare) and len(e.ops) == 1
             and isinstance(e.ops[0], ast.Eq)):
